@@ -14,6 +14,7 @@ import Homonim.Model.Layout
 import Homonim.Model.WindowIO
 import Homonim.Model.Mask
 import Homonim.Model.Convert
+import Homonim.Model.Orient
 import Homonim.Lemmas.Geom
 import Mathlib.Algebra.Order.Floor.Ring
 import Mathlib.Data.Rat.Floor
@@ -166,5 +167,52 @@ theorem src_C08_read_nodata (isMasked : Bool) (dsNodata : Option Int) :
     (readNodata isMasked dsNodata).isNone = read_usesInternalNodata isMasked dsNodata.isSome := by
   unfold readNodata read_usesInternalNodata
   cases isMasked <;> cases dsNodata <;> rfl
+
+/-! ### utils.py orientation (C16, C06, C18) -/
+
+/-- `north_up`: the model's test is the one the source states (exact zero tests on the rotation terms, sign tests on the pixel
+    sizes) -/
+theorem src_C16_north_up (a b d e : Rat) : northUpOf a b d e = orient_northUp a b d e := rfl
+
+/-- what `north_up` means: positive x pixel size, negative y pixel size, and *no* rotation or shear at all -/
+theorem src_C16_north_up_iff (a b d e : Rat) : orient_northUp a b d e = true ↔ 0 < a ∧ e < 0 ∧ b = 0 ∧ d = 0 := by
+  unfold orient_northUp
+  simp only [Bool.and_eq_true, decide_eq_true_eq]
+  tauto
+
+/-- `same_orientation_crs`: the model's four re-projection decisions are the four conditions the source states, in its order -/
+theorem src_C16_same_orientation (src ref : ImState) (procIsSrc : Bool) :
+    sameOrientationCrs src ref procIsSrc =
+      (let sameCrs := src.crs == ref.crs
+       let s1 := if orient_flipSrc src.northUp sameCrs procIsSrc then warp src src.crs else src
+       let r1 := if orient_flipRef ref.northUp sameCrs procIsSrc then warp ref ref.crs else ref
+       (if orient_srcToRefCrs sameCrs procIsSrc then warp s1 ref.crs else s1,
+        if orient_refToSrcCrs sameCrs procIsSrc then warp r1 src.crs else r1)) := rfl
+
+/-- after `same_orientation_crs` both images are north-up and in one CRS, whatever they were and whichever grid is processed -/
+theorem src_C16_same_orientation_result (src ref : ImState) (procIsSrc : Bool) :
+    (sameOrientationCrs src ref procIsSrc).1.northUp = true ∧ (sameOrientationCrs src ref procIsSrc).2.northUp = true ∧
+      (sameOrientationCrs src ref procIsSrc).1.crs = (sameOrientationCrs src ref procIsSrc).2.crs := by
+  obtain ⟨sn, sc⟩ := src
+  obtain ⟨rn, rc⟩ := ref
+  by_cases h : sc = rc
+  · subst h
+    cases sn <;> cases rn <;> cases procIsSrc <;> simp [sameOrientationCrs, warp]
+  · have hb : (sc == rc) = false := by simpa using h
+    cases sn <;> cases rn <;> cases procIsSrc <;> simp [sameOrientationCrs, warp, hb]
+
+/-! ### nodata comparison (C08, C20, C07) -/
+
+/-- `nan_equals`: the model's nodata comparison is the source's - exact (IEEE) equality, or both NaN; no tolerance -/
+theorem src_C08_nan_equals (x y : FVal) : x.nanEq y = mask_nanEquals (x.ieeeEq y) x.isNan y.isNan := by
+  cases x <;> cases y <;> simp [FVal.nanEq, FVal.ieeeEq, FVal.isNan, mask_nanEquals]
+
+/-- `RasterArray.mask`: a stored value is a valid pixel iff it does not compare equal to the nodata value - so a finite value
+    different from a finite nodata value is valid however close the two are -/
+theorem src_C08_mask_valid (q nd : Rat) (h : q ≠ nd) :
+    mask_pixelValid true ((FVal.fin q).ieeeEq (.fin nd)) (FVal.fin q).isNan (FVal.fin nd).isNan = true := by
+  simp [mask_pixelValid, mask_nanEquals, FVal.ieeeEq, FVal.isNan, h]
+
+theorem src_C08_mask_no_nodata (e a b : Bool) : mask_pixelValid false e a b = true := rfl
 
 end Homonim
